@@ -46,6 +46,37 @@ type c15Ssa4 struct{ Zalpha []kyber.Scalar }
 type c15Ref struct {
 	err                              error
 	eq33, eq34, eq35, simple, bX, bY bool
+	// indices at which the per-index checks fail / simple-shuffle equations E_p that fail
+	f33, fbX, fbY, fE []int
+}
+
+// onlyFails reports whether exactly the named check fails ("33", "34", "35",
+// "simple", "bX", "bY") and, for the per-index checks, at exactly index idx
+// (idx < 0: any single index).
+func (c c15Ref) onlyFails(what string, idx int) bool {
+	if c.err != nil {
+		return false
+	}
+	ok := map[string]bool{"33": c.eq33, "34": c.eq34, "35": c.eq35, "simple": c.simple, "bX": c.bX, "bY": c.bY}
+	for k, v := range ok {
+		if (k == what) == v {
+			return false
+		}
+	}
+	var l []int
+	switch what {
+	case "33":
+		l = c.f33
+	case "bX":
+		l = c.fbX
+	case "bY":
+		l = c.fbY
+	case "simple":
+		l = c.fE
+	default:
+		return true
+	}
+	return len(l) == 1 && (idx < 0 || l[0] == idx)
 }
 
 func (c c15Ref) kyberEqs() bool { return c.err == nil && c.eq33 && c.eq34 && c.eq35 && c.simple }
@@ -54,11 +85,15 @@ func (c c15Ref) String() string {
 	if c.err != nil {
 		return "unreadable: " + c.err.Error()
 	}
-	return fmt.Sprintf("(33)=%v (31)+(34)=%v (32)+(35)=%v simple-shuffle-eqs=%v simple.X==A+lambda*B:%v simple.Y==C+lambda*D:%v", c.eq33, c.eq34, c.eq35, c.simple, c.bX, c.bY)
+	str := fmt.Sprintf("(33)=%v (31)+(34)=%v (32)+(35)=%v simple-shuffle-eqs=%v simple.X==A+lambda*B:%v simple.Y==C+lambda*D:%v", c.eq33, c.eq34, c.eq35, c.simple, c.bX, c.bY)
+	if len(c.f33)+len(c.fbX)+len(c.fbY)+len(c.fE) > 0 {
+		str += fmt.Sprintf(" [failing: (33)@%v bindX@%v bindY@%v simple-E_p@%v]", c.f33, c.fbX, c.fbY, c.fE)
+	}
+	return str
 }
 
 // simpleCheck evaluates the simple k-shuffle verification equations.
-func (j *c15J) simpleCheck(G, Gamma kyber.Point, X, Y, Theta []kyber.Point, alpha []kyber.Scalar, t, c kyber.Scalar) bool {
+func (j *c15J) simpleCheck(G, Gamma kyber.Point, X, Y, Theta []kyber.Point, alpha []kyber.Scalar, t, c kyber.Scalar) (bad []int) {
 	s := j.s
 	k := len(X)
 	if G == nil {
@@ -72,15 +107,23 @@ func (j *c15J) simpleCheck(G, Gamma kyber.Point, X, Y, Theta []kyber.Point, alph
 	}
 	xh := func(i int) kyber.Point { return s.Point().Add(X[i], U) }
 	yh := func(i int) kyber.Point { return s.Point().Add(Y[i], W) }
-	good := th(xh(0), yh(0), Theta[0], c, alpha[0])
+	if !th(xh(0), yh(0), Theta[0], c, alpha[0]) {
+		bad = append(bad, 0)
+	}
 	for i := 1; i < k; i++ {
-		good = th(xh(i), yh(i), Theta[i], alpha[i-1], alpha[i]) && good
+		if !th(xh(i), yh(i), Theta[i], alpha[i-1], alpha[i]) {
+			bad = append(bad, i)
+		}
 	}
 	for i := k; i < 2*k-1; i++ {
-		good = th(Gamma, G, Theta[i], alpha[i-1], alpha[i]) && good
+		if !th(Gamma, G, Theta[i], alpha[i-1], alpha[i]) {
+			bad = append(bad, i)
+		}
 	}
-	good = th(Gamma, G, Theta[2*k-1], alpha[2*k-2], c) && good
-	return good
+	if !th(Gamma, G, Theta[2*k-1], alpha[2*k-2], c) {
+		bad = append(bad, 2*k-1)
+	}
+	return bad
 }
 
 func (j *c15J) readSimple(k int, ctx proof.VerifierContext) (s0 *c15Ssa0, s2 *c15Ssa2, s4 *c15Ssa4, t, c kyber.Scalar, err error) {
@@ -157,19 +200,23 @@ func (j *c15J) refPair(st *c15Stmt, prf []byte) (res c15Ref) {
 		if e != nil {
 			return e
 		}
-		res.simple = j.simpleCheck(G, p1.Gamma, s0.X, s0.Y, s2.Theta, s4.Zalpha, t, c)
+		res.fE = j.simpleCheck(G, p1.Gamma, s0.X, s0.Y, s2.Theta, s4.Zalpha, t, c)
+		res.simple = len(res.fE) == 0
 		res.bX, res.bY, res.eq33 = true, true, true
 		phi1, phi2 := s.Point().Null(), s.Point().Null()
 		for i := 0; i < k; i++ {
 			B := s.Point().Sub(s.Point().Mul(v2.Zrho[i], G), p1.U[i])
 			if !s.Point().Add(p1.A[i], s.Point().Mul(v4.Zlambda, B)).Equal(s0.X[i]) {
 				res.bX = false
+				res.fbX = append(res.fbX, i)
 			}
 			if !s.Point().Add(p1.C[i], s.Point().Mul(v4.Zlambda, p3.D[i])).Equal(s0.Y[i]) {
 				res.bY = false
+				res.fbY = append(res.fbY, i)
 			}
 			if !s.Point().Mul(p5.Zsigma[i], p1.Gamma).Equal(s.Point().Add(p1.W[i], p3.D[i])) {
 				res.eq33 = false
+				res.f33 = append(res.f33, i)
 			}
 			phi1 = s.Point().Sub(s.Point().Add(phi1, s.Point().Mul(p5.Zsigma[i], st.Xb[i])), s.Point().Mul(v2.Zrho[i], st.X[i]))
 			phi2 = s.Point().Sub(s.Point().Add(phi2, s.Point().Mul(p5.Zsigma[i], st.Yb[i])), s.Point().Mul(v2.Zrho[i], st.Y[i]))
